@@ -48,6 +48,8 @@ func c11Run(ops []string, seed int) (lines []string, viols []Violation, info map
 		return
 	}
 	defer st.Shutdown()
+	st.EagerAccept = seed%2 == 0
+	info = map[string]interface{}{"eager_accept": st.EagerAccept}
 	if dbgRelay != nil {
 		defer func() { dbgRelay(relay) }()
 	}
@@ -123,7 +125,7 @@ func c11Run(ops []string, seed int) (lines []string, viols []Violation, info map
 				viol("C11/transfer-failed", "data did not arrive over a connection that was handed out as working")
 			}
 			add("sess.transfer")
-		case "close-client", "close-server", "relay-failure":
+		case "close-client", "close-server", "relay-failure", "relay-outage":
 			switch op {
 			case "close-client":
 				cli.Mailbox.Close()
@@ -144,6 +146,22 @@ func c11Run(ops []string, seed int) (lines []string, viols []Violation, info map
 				}
 				cli.Mailbox.Close()
 				add("sess.closed c")
+			case "relay-outage":
+				// the relay is unreachable while both sides give up their connection: every stream
+				// operation, closing the streams included, fails; then it comes back
+				relay.SetDown(true)
+				time.Sleep(300 * time.Millisecond)
+				cli.Mailbox.Close()
+				srv.Mailbox.Close()
+				add("sess.closed c")
+				add("sess.closed s")
+				relay.SetDown(false)
+				for _, m := range []net.Conn{cli.Mailbox, srv.Mailbox} {
+					if !isDone(m) {
+						viol("C11/closed-connection-not-done", "a connection closed during a relay outage never reports Done(): the next Accept/Dial waits forever")
+						return
+					}
+				}
 			case "relay-failure":
 				// the relay forgets both mailboxes: streams fail, the connection dies or is re-established
 				sid, _ := st.SrvData.SID()
@@ -166,16 +184,20 @@ func c11Run(ops []string, seed int) (lines []string, viols []Violation, info map
 		case "early-accept", "early-dial":
 			// asked for the next connection while this one is open: must wait
 			ch := make(chan PendingConn, 1)
-			go func() {
-				var c net.Conn
-				var err error
-				if op == "early-accept" {
-					c, err = st.Srv.Accept()
-				} else {
-					c, err = st.Cli.Dial(st.Ctx, "")
-				}
-				ch <- PendingConn{c, err}
-			}()
+			if op == "early-accept" && st.PendingAccept != nil {
+				ch = st.PendingAccept // the eager Accept of the serve loop is that early call
+			} else {
+				go func() {
+					var c net.Conn
+					var err error
+					if op == "early-accept" {
+						c, err = st.Srv.Accept()
+					} else {
+						c, err = st.Cli.Dial(st.Ctx, "")
+					}
+					ch <- PendingConn{c, err}
+				}()
+			}
 			select {
 			case p := <-ch:
 				if p.Err == nil {
@@ -253,7 +275,7 @@ func waitDone(c net.Conn, d time.Duration) {
 func TestC11(t *testing.T) {
 	r := NewRecorder(t, "C11")
 	defer r.Close(t)
-	alphabet := []string{"transfer", "close-client", "close-server", "relay-failure", "early-accept", "early-dial"}
+	alphabet := []string{"transfer", "close-client", "close-server", "relay-failure", "early-accept", "early-dial", "relay-outage"}
 	var seqs [][]string
 	// all sequences of length 1 and 2, plus seeded longer ones
 	for _, a := range alphabet {
